@@ -477,6 +477,10 @@ type jitterTransport struct {
 	next     http.RoundTripper
 	reqReads []time.Duration
 	resReads []time.Duration
+	// holdResp keeps a response back for this long after the round trip has
+	// produced it (an HTTPClient is free to take its time; the call's context
+	// may well end in the meantime, and the response is handed over all the same)
+	holdResp time.Duration
 }
 
 func (t jitterTransport) RoundTrip(r *http.Request) (*http.Response, error) {
@@ -486,6 +490,9 @@ func (t jitterTransport) RoundTrip(r *http.Request) (*http.Response, error) {
 	resp, err := t.next.RoundTrip(r)
 	if err == nil {
 		resp.Body = &jitterBody{ReadCloser: resp.Body, delays: t.resReads}
+		if t.holdResp > 0 {
+			time.Sleep(t.holdResp)
+		}
 	}
 	return resp, err
 }
